@@ -18,12 +18,12 @@ PROPS_PART = {
         verus=[dict(unit='thread_pool', which='all')],
         kani=[],
         cex={},   # no Kani counterexample possible (no threads): no-failing-input-found; demonstration = notes/demos/C29_linger_stress_example.rs
-        native=[dict(bin='bnd_thread_pool', when='undecided',
+        native=[dict(bin='bnd_thread_pool', when='quick',
                      bound='241 gate/sleep-sequenced scenario instances on fresh ThreadGroups per run (count run/skipped printed in the BOUNDED-OK line): S1 submit() blocked across shutdown (0-2 permanent workers x no/non-lingering/lingering busy '
                            'auxiliary worker x 2, group or pool-then-group shutdown); S2 p+3 gated tasks via submit_or_spawn (3 release orders, 0-2 workers, linger 0/30ms) and 1/2/4 submitter threads x 6|40 tasks via submit with shutdown after or '
                            'concurrent (0/50/200/1000us); S3 submit/submit_or_spawn called after shut_down returned (0-2 workers, linger 0/30ms, cold/warm); S4 await_shutdown vs a gate-held task on 6 kinds of group thread x 2; S5 hand-over at an 8ms '
                            'linger timeout, coarse sweep -200..1000us step 50 + 120 instances around the observed edge; S6 submit_or_spawn loops vs ThreadGroup::shut_down over 1500 sibling pools x 6; settle margin 80ms, setup margin 5s (else the '
-                           'instance is skipped), deadlock watchdog 20s; timing is never asserted. A scenario TEST on the native scheduler, not an exploration of interleavings',
+                           'instance is skipped), deadlock watchdog 60s; timing is never asserted. A scenario TEST on the native scheduler, not an exploration of interleavings',
                      what='public API of the real quandary::thread: every task accepted (Ok) by submit/submit_or_spawn has run exactly once when await_shutdown returns and never twice; submits called after shut_down() returned are rejected '
                           'and never run; await_shutdown does not return while a started task is still held at its gate; shut_down/await_shutdown/submit return (no deadlock), including hand-over at the linger timeout and submit_or_spawn '
                           'concurrent with group shutdown')],
